@@ -739,6 +739,7 @@ func TestVFC07RegressCursor(t *testing.T) {
 	vfC07Known(t, vfC07SigCursor, func(tb vfC07TB) {
 		for _, c := range []struct{ file, mem, size int }{{4, 3, 3}, {4, 3, 2}, {1, 1, 1}, {2, 4, 2}} {
 			s := vfC07NewSys(tb, vfC07Clients{}, 10, true, true, false)
+			s.regress = true
 			for i := 0; i < c.file; i++ {
 				s.record(vfC07FixedRec(fmt.Sprintf("f%d.test", i), "192.0.2.1"), time.Second)
 			}
@@ -754,6 +755,7 @@ func TestVFC07RegressCursor(t *testing.T) {
 		}
 		// the same with the file rotated away from under the memory entries
 		s := vfC07NewSys(tb, vfC07Clients{}, 10, true, true, false)
+		s.regress = true
 		defer s.close()
 		for i := 0; i < 3; i++ {
 			s.record(vfC07FixedRec(fmt.Sprintf("r%d.test", i), "192.0.2.1"), time.Second)
